@@ -1527,6 +1527,17 @@ impl VisitMut for Norm {
                             self.log("N7j-option-map_or", sp);
                         }
                     }
+                    "map" if mc.args.len() == 1 && self.option_combinators && matches!(&mc.args[0], Expr::Closure(c) if c.inputs.len() == 1 && !body_has_return(&c.body)) => {
+                        // N7l (option option_combinators=1, for functions whose only `.map` receivers are Options): OPT.map(|p| B) => match OPT { Some(p) => Some(B), None => None }
+                        if let Expr::Closure(c) = &mc.args[0] {
+                            let pat = match c.inputs[0].clone() { Pat::Type(pt) => *pt.pat, p => p };
+                            let body = &c.body;
+                            let recv = &mc.receiver;
+                            let ne: Expr = parse_quote!(match #recv { Some(#pat) => Some(#body), None => None });
+                            *e = ne;
+                            self.log("N7l-option-map", sp);
+                        }
+                    }
                     "filter" if mc.args.len() == 1 && self.option_combinators && matches!(&mc.args[0], Expr::Closure(c) if c.inputs.len() == 1 && !body_has_return(&c.body)) => {
                         // N7k (option option_combinators=1): OPT.filter(|p| B) => match OPT { Some(x) => { let p = &x; if B { Some(x) } else { None } } None => None }
                         if let Expr::Closure(c) = &mc.args[0] {
